@@ -95,8 +95,16 @@ class ContainerBase:
                 setattr(self, prop_name, copy.copy(new_value))
 
     def mk_copy(self, copy_node: bool = False) -> ContainerBase:
-        """Make a copy of self."""
+        """Make a copy of self.
+
+        All member values are copied, so that the copy can be modified at any nesting depth without changing
+        the original. References to other containers (e.g. descriptor_container of a state) are kept.
+        """
         copied = copy.copy(self)
+        for prop_name, _ in self.sorted_container_properties():
+            value = self.get_actual_value(prop_name)
+            if value is not None:
+                setattr(copied, prop_name, copy.deepcopy(value))
         if copy_node and self.node is not None:
             copied.node = xml_utils.copy_element(self.node)
         return copied
